@@ -33,21 +33,24 @@ type Stats struct {
 	Unsat    int
 	Unknown  int
 	Errors   int
+	Hangs    int
 	SolverNs int64
 }
 
 type Solver struct {
-	kind    string
-	cmd     *exec.Cmd
-	in      io.WriteCloser
-	out     *bufio.Reader
-	defined map[int64]bool
-	vars    []*sym.Term
-	lit     int
-	Stats   Stats
-	Log     io.Writer // optional transcript
-	timeout int       // ms per query
-	dead    bool
+	kind      string
+	cmd       *exec.Cmd
+	in        io.WriteCloser
+	out       *bufio.Reader
+	defined   map[int64]bool
+	vars      []*sym.Term
+	lit       int
+	Stats     Stats
+	Log       io.Writer // optional transcript
+	timeout   int       // ms per query
+	dead      bool
+	Restarted bool // the process was killed and restarted since the flag was last cleared (session state lost)
+	lines     chan string
 }
 
 func New(kind string, timeoutMs int) (*Solver, error) {
@@ -61,9 +64,9 @@ func New(kind string, timeoutMs int) (*Solver, error) {
 func (s *Solver) start() error {
 	var cmd *exec.Cmd
 	switch s.kind {
-	case "", "z3":
+	case "z3":
 		cmd = exec.Command("z3", "-in")
-	case "z3-new":
+	case "", "z3-new":
 		cmd = exec.Command("z3-new", "-in")
 	case "cvc5":
 		cmd = exec.Command("cvc5", "--incremental", "--lang=smt2", "--produce-models", fmt.Sprintf("--tlimit-per=%d", s.timeout))
@@ -85,6 +88,19 @@ func (s *Solver) start() error {
 		return err
 	}
 	s.cmd, s.in, s.out = cmd, in, bufio.NewReaderSize(out, 1<<16)
+	lines := make(chan string, 1024)
+	s.lines = lines
+	rd := s.out
+	go func() {
+		for {
+			line, err := rd.ReadString('\n')
+			if err != nil {
+				close(lines)
+				return
+			}
+			lines <- line
+		}
+	}()
 	if d := os.Getenv("GOSE_SMTLOG"); d != "" && s.Log == nil {
 		f, _ := os.Create(fmt.Sprintf("%s/solver-%d.smt2", d, cmd.Process.Pid))
 		s.Log = f
@@ -99,6 +115,7 @@ func (s *Solver) Close() {
 		s.in.Close()
 		s.cmd.Process.Kill()
 		s.cmd.Wait()
+		s.cmd = nil
 	}
 }
 
@@ -113,6 +130,7 @@ func (s *Solver) send(str string) {
 
 // Reset forgets all definitions and assertions (start of a new path).
 func (s *Solver) Reset() {
+	s.Restarted = false
 	if s.dead {
 		s.Close()
 		if err := s.start(); err != nil {
@@ -205,7 +223,14 @@ func (s *Solver) Check(extra *sym.Term) (Result, map[string]uint64) {
 	default:
 		res = Unknown
 		s.Stats.Unknown++
-		if strings.Contains(line, "error") {
+		if s.dead {
+			// restart now so that the caller can re-send the session
+			s.Close()
+			if err := s.start(); err != nil {
+				panic(err)
+			}
+			s.Restarted = true
+		} else if strings.Contains(line, "error") {
 			s.Stats.Errors++
 			fmt.Fprintf(os.Stderr, "solver: %s\n", line)
 		}
@@ -218,12 +243,29 @@ func (s *Solver) Check(extra *sym.Term) (Result, map[string]uint64) {
 	return res, model
 }
 
+// rawLine reads one output line, killing a solver that overruns its own time limit by far.
+func (s *Solver) rawLine() (string, bool) {
+	limit := time.Duration(s.timeout)*time.Millisecond*2 + 5*time.Second
+	select {
+	case line, ok := <-s.lines:
+		if !ok {
+			s.dead = true
+			return "", false
+		}
+		return line, true
+	case <-time.After(limit):
+		s.Stats.Hangs++
+		s.cmd.Process.Kill()
+		s.dead = true
+		return "", false
+	}
+}
+
 func (s *Solver) readLine() string {
 	for {
-		line, err := s.out.ReadString('\n')
-		if err != nil {
-			s.dead = true
-			return "error: solver died: " + err.Error()
+		line, ok := s.rawLine()
+		if !ok {
+			return "error: solver died or hung"
 		}
 		line = strings.TrimSpace(line)
 		if line == "" {
@@ -254,9 +296,8 @@ func (s *Solver) getModel() map[string]uint64 {
 	var buf strings.Builder
 	started := false
 	for {
-		line, err := s.out.ReadString('\n')
-		if err != nil {
-			s.dead = true
+		line, ok := s.rawLine()
+		if !ok {
 			return model
 		}
 		for _, c := range line {
